@@ -97,7 +97,7 @@ func keyshareResponseGuards(P *Program, R *Report) {
 			return
 		}
 		uses := false
-		for _, a := range c.Call.Args[1:] {
+		for _, a := range callArgs(c)[1:] {
 			if desc(a) == "arg#0" {
 				uses = true
 			}
@@ -131,7 +131,7 @@ func keyshareChallengeInput(P *Program, R *Report) {
 		R.bad(rule, kKSResponse+":challenge", "the challenge is computed by createChallenge", "no call", P.Pos(fn.Pos()))
 		return
 	}
-	a := ch.Call.Args
+	a := callArgs(ch)
 	ctxD := desc(a[0])
 	R.decide(rule, kKSResponse+":roles", "createChallenge(Context, Nonce, contribs, IsSignatureSession) of the second message",
 		(ctxD == ksReq+".Context" || ctxD == "phi("+ksReq+".Context|global:gabi.bigOne)") && desc(a[1]) == ksReq+".Nonce" && desc(a[3]) == ksReq+".IsSignatureSession", fmt.Sprintf("%s | %s | %s", desc(a[0]), desc(a[1]), desc(a[3])), P.Pos(ch.Pos()))
@@ -285,14 +285,14 @@ func keyshareHashRule(P *Program, R *Report) {
 				sum = c.(*ssa.Call)
 			}
 		}
-		R.decide(rule, kKSHash+":whole-structure", "the hashed bytes are cbor.Marshal of the whole input slice (key ids and entry boundaries are part of the encoding)", marshal != nil && desc(marshal.Call.Args[0]) == "arg#0",
+		R.decide(rule, kKSHash+":whole-structure", "the hashed bytes are cbor.Marshal of the whole input slice (key ids and entry boundaries are part of the encoding)", marshal != nil && desc(callArgs(marshal)[0]) == "arg#0",
 			func() string {
 				if marshal == nil {
 					return "no cbor.Marshal"
 				}
-				return "marshals " + desc(marshal.Call.Args[0])
+				return "marshals " + desc(callArgs(marshal)[0])
 			}(), P.Pos(fn.Pos()))
-		R.decide(rule, kKSHash+":digest", "the digest is sha256 of exactly those bytes", sum != nil && marshal != nil && desc(sum.Call.Args[0]) == desc(marshal)+"#0", "", P.Pos(fn.Pos()))
+		R.decide(rule, kKSHash+":digest", "the digest is sha256 of exactly those bytes", sum != nil && marshal != nil && desc(callArgs(sum)[0]) == desc(marshal)+"#0", "", P.Pos(fn.Pos()))
 		okRet := false
 		for _, r := range nonErrorReturnValues(fn, 0, 1) {
 			if sl, ok := r.(*ssa.Slice); ok && sl.Low == nil && sl.High == nil {
@@ -355,10 +355,10 @@ func keyshareHashRule(P *Program, R *Report) {
 		}
 		ok := false
 		if hc != nil {
-			seq, sok := seqOf(hc.Call.Args[0])
+			seq, sok := seqOf(callArgs(hc)[0])
 			ok = sok && len(seq) == 1 && seq[0].Kind == "star" && len(seq[0].Sub) == 1
 			for _, r := range returnsOf(fn) {
-				if len(r.Results) == 3 && !isNilConst(r.Results[1]) && r.Results[1] != hc.Call.Args[0] {
+				if len(r.Results) == 3 && !isNilConst(r.Results[1]) && r.Results[1] != callArgs(hc)[0] {
 					ok = false
 				}
 			}
@@ -370,7 +370,7 @@ func keyshareHashRule(P *Program, R *Report) {
 		ok := false
 		for _, c := range callsIn(fn) {
 			if isCallTo(c, "gabi.(ProofBuilderList).ChallengeWithRandomizers") {
-				a := c.Common().Args
+				a := callArgs(c)
 				ok = desc(a[0]) == "arg#0" && desc(a[1]) == "arg#3" && desc(a[2]) == "arg#4" && desc(a[3]) == "arg#1" && desc(a[4]) == "arg#5"
 			}
 		}
@@ -454,10 +454,10 @@ func keyshareResponsesRule(P *Program, R *Report) {
 			if !newProto {
 				return
 			}
-			if desc(c.Call.Args[0]) == impl.typ+".C" && desc(c.Call.Args[1]) == "<gabi.ProofP>.C" {
+			if desc(callArgs(c)[0]) == impl.typ+".C" && desc(callArgs(c)[1]) == "<gabi.ProofP>.C" {
 				okC = true
 			}
-			if desc(c.Call.Args[0]) == impl.field && desc(c.Call.Args[1]) == "<gabi.ProofP>.SResponse" {
+			if desc(callArgs(c)[0]) == impl.field && desc(callArgs(c)[1]) == "<gabi.ProofP>.SResponse" {
 				okS = true
 			}
 		})
@@ -481,7 +481,7 @@ func keyshareCommitmentsRule(P *Program, R *Report) {
 		R.bad(rule, kKSCommits+":randomizer", "the randomiser is drawn with RandomBigInt", "no call", P.Pos(fn.Pos()))
 		return
 	}
-	lv := phiLeaves(gen.Call.Args[0])
+	lv := phiLeaves(callArgs(gen)[0])
 	var ls []string
 	for d := range lv {
 		ls = append(ls, d)
@@ -558,7 +558,7 @@ func keyshareCommitmentsRule(P *Program, R *Report) {
 			}
 		}
 	}
-	walk(gen.Call.Args[0])
+	walk(callArgs(gen)[0])
 	if len(seenPhi) == 0 {
 		okSel = false
 	}
@@ -627,7 +627,7 @@ func buildDistributedRule(P *Program, R *Report) {
 				if !ok || !c.Call.IsInvoke() || c.Call.Method.Name() != "MergeProofP" {
 					return false
 				}
-				return desc(c.Call.Value) == "makeslice[#i]" && desc(c.Call.Args[0]) == "arg#2[#i]" && desc(c.Call.Args[1]) == "call:invoke:gabi.ProofBuilder.PublicKey(arg#0[#i])"
+				return desc(c.Call.Value) == "makeslice[#i]" && desc(callArgs(c)[0]) == "arg#2[#i]" && desc(callArgs(c)[1]) == "call:invoke:gabi.ProofBuilder.PublicKey(arg#0[#i])"
 			}}
 	}}}
 	m2 := fa2.inFn(fn, AcceptNilErr(1))
